@@ -337,6 +337,9 @@ class Exec:
                 nxt = m.group(4)
                 self.under(c, lambda: self.step(fn, fid, nxt, env, pc + [c], visits, k, ctx))
                 return
+            m = re.match(r'(.+?) = ((?:core::panicking::|std::rt::)?(?:panic_fmt|panic|panic_display|panic_nounwind|begin_panic|unwrap_failed|expect_failed|panic_bounds_check|assert_failed)(?:::<.*>)?\(.*\)) -> (?:bb\d+|unwind.*);', st)
+            if m:       # diverging call (with or without a clean-up block)
+                self.panics.append((list(pc), 'explicit: ' + m.group(2)[:200], fn.path)); return
             m = re.match(r'(.+?) = (.*\)) -> \[return: (bb\d+), unwind.*\];', st) or re.match(r'(.+?) = (.*\)) -> \[return: (bb\d+)\];', st)
             if m and not st.startswith(('assert', 'switchInt')):
                 return self.do_call(fn, fid, env, pc, visits, k, m.group(1), m.group(2), m.group(3), st, ctx)
